@@ -802,9 +802,15 @@ class Evaluator:
             val = self.ev(st.value)
             if isinstance(base, Abs) and not isinstance(val, Abs):
                 cur = base.attrs.get(st.target.attr)
-                if isinstance(cur, (int, list, str)) and \
-                        isinstance(st.op, ast.Add):
-                    new = cur + val
+                import operator as _op
+                fn = {ast.Add: _op.add, ast.Sub: _op.sub,
+                      ast.Mult: _op.mul}.get(type(st.op))
+                if fn is not None and (
+                        (isinstance(cur, (int, float)) and
+                         isinstance(val, (int, float))) or
+                        (isinstance(st.op, ast.Add) and
+                         isinstance(cur, (list, str)))):
+                    new = fn(cur, val)
                     self.events.append(("store", base.label, st.target.attr,
                                         new))
                     base.attrs[st.target.attr] = new
